@@ -95,6 +95,32 @@ Fixpoint utf8_ok (b : bytes) : bool :=
     else false
   end.
 
+(* ---- Memoer.verify: which key a signature is checked against ---- *)
+Section Verify.
+  (* the crypto proper: _decodeQVK of the key text ('B' + 43 chars), _decodeSGN of
+     the signature text and libsodium crypto_sign_verify_detached *)
+  Variable sigverify : bytes -> bytes -> bytes -> res unit.
+  (* self.keep.get(vid) -> keyage.qvk *)
+  Variable keep : bytes -> option bytes.
+
+  (* _decodeVID then the key choice: a non-transferable vid ('B') IS the verkey;
+     a transferable vid ('D') or digest vid ('E') is only a label whose current
+     verkey must be looked up in .keep *)
+  Definition mverify (vid sig ser : bytes) : res unit :=
+    match vid with
+    | [] => Exc MemoErr
+    | c :: rest =>
+      if negb ((c =? 66) || (c =? 68) || (c =? 69)) then Exc MemoErr      (* code not in B D E *)
+      else if negb (Nat.eqb (length vid) 44) then Exc MemoErr
+      else if 16 <=? idx (hd 0 rest) then Exc MemoErr                    (* non-zero midpad bits *)
+      else if c =? 66 then sigverify vid sig ser
+      else match keep vid with
+           | None => Exc MemoErr                                         (* missing keyage *)
+           | Some qvk => sigverify qvk sig ser
+           end
+    end.
+End Verify.
+
 (* ---- pick ---- *)
 Record picked := { p_mid : bytes;            (* 24 Base64 chars *)
                    p_vid : option bytes;     (* 44 Base64 chars or None *)
